@@ -435,7 +435,17 @@ def run(h: Harness):
         rep = Stack(g, gene_length=rng.choice([64, 256]))
         degenerate = any(g.distanceToTerminal[s] >= 1000000 for s in g.all_nodes)
         try:
-            order = [gram.ty_sx(b.spec_ty(t)) for t in sorted(g.get_all_mentioned_symbols(), key=str)]
+            try:
+                from geneticengine.representations.stackgggp import ordered_symbols
+                syms = ordered_symbols(g)
+            except ImportError:
+                syms = sorted(g.get_all_mentioned_symbols(), key=str)
+            order = [gram.ty_sx(b.spec_ty(t)) for t in syms]
+            if len({sx(o) for o in order}) < len(order):
+                # two refinement OBJECTS with equal parameters (the same refined type written in two fields) are two symbols -- two
+                # stacks -- for the implementation and one for the model, which identifies a symbol with its type: not compared
+                order = None
+                h.count("stack:twin-refinements-not-compared-with-the-model")
         except Exception:  # noqa: BLE001
             order = None
 
